@@ -62,11 +62,15 @@ class SymmetricSubstitutionModel(AbstractSubstitutionModel, ABC):
         S = sqrt_pi @ Q @ sqrt_pi_inv
         e, v = self.eigen(S)
         offset = branch_lengths.dim() - e.dim() + 1
-        return (
+        # P(t) = I + U (exp(et) - 1) U^-1 : exactly the identity at t=0 (invariant
+        # sites, zero branch lengths) instead of the identity plus round-off
+        return torch.eye(
+            e.shape[-1], dtype=e.dtype, device=e.device
+        ) + (
             (sqrt_pi_inv @ v).reshape(
                 e.shape[:-1] + (1,) * offset + sqrt_pi_inv.shape[-2:]
             )
-            @ torch.exp(
+            @ torch.expm1(
                 e.reshape(e.shape[:-1] + (1,) * offset + e.shape[-1:])
                 * branch_lengths.unsqueeze(-1)
             ).diag_embed()
